@@ -332,8 +332,19 @@ impl Property for C09 {
             pending.push(Step::Direct(vec![Stmt::Restore(Some(Target::L(case.prog.lines.len() - 1)))]));
         }
         let mut keeps_position = false;
+        let mut forced: std::collections::VecDeque<Step> = std::collections::VecDeque::new();
         grow(rng, &mut case, steps, |rng, case, last, _i| {
+            if let Some(s) = forced.pop_front() {
+                return Some(s);
+            }
             let cur = current_program(case);
+            if rng.pct(5) && !cur.lines.is_empty() {
+                // NEW, then a program typed in again, then a READ at the prompt without RUN: NEW is
+                // CLEAR plus an empty listing, the READ delivers the first constant
+                forced.push_back(Step::Edit(case.prog.clone()));
+                forced.push_back(Step::Direct(direct_read(rng)));
+                return Some(Step::Renum("NEW".to_string(), Program::default()));
+            }
             let after_edit = matches!(case.session.last(), Some(Step::Edit(_)) | Some(Step::Renum(..)));
             if !after_edit {
                 if let Some(s) = pending.pop() {
